@@ -553,6 +553,10 @@ func runSave(c *core.Ctx) {
 			})
 			if len(muts) > 0 {
 				isAPI := r.APIMethods["Repo"][fn.Name()]
+				if !isAPI && fn.Parent() != nil && r.APIMethods["Repo"][top.Name()] && (top.Name() == "IndexInsert" || top.Name() == "IndexRemove") {
+					// the critical section of an API mutator written as a function literal (`return dr.withLock(func() error {…})`)
+					isAPI = true
+				}
 				if !isAPI && fn.Parent() == nil {
 					// a helper the API mutators delegate to (their whole body is `return helper(…)`) stands for them
 					for _, site := range c.P.Callers(fn) {
@@ -574,6 +578,11 @@ func runSave(c *core.Ctx) {
 							saveCalls = append(saveCalls, sc)
 							s.saved = true
 							return []st{s}
+						}
+						// an API mutator that reports success has applied the mutation: `return nil` in front of it (an ‘already
+						// listed’ shortcut) acknowledges an insert or removal that never reached the index
+						if ret, ok := in.(*ssa.Return); ok && !s.dirty && bad == "" && isAPI && fn.Parent() == nil && (fn.Name() == "IndexInsert" || fn.Name() == "IndexRemove") && retErrNil(ret) {
+							bad = fmt.Sprintf("the return at %s reports success although the index was not changed on this path: the mutation the caller was acknowledged for is skipped (an entry known only as a child is never promoted to index.json, a tag is never recorded)", c.P.Pos(ret.Pos()))
 						}
 						if ret, ok := in.(*ssa.Return); ok && s.dirty && bad == "" {
 							if !s.saved {
